@@ -272,12 +272,37 @@ def sym_getitem(d, key):
     return proxies.sym_getitem(d, key)
 
 
+_ND_BLOCKS = None
+
+
+def nd_blocks():
+    """start code points of the runs of ten Unicode decimal digits (category Nd) known to the running interpreter:
+    int() accepts every one of them, with the digit's value"""
+    global _ND_BLOCKS
+    if _ND_BLOCKS is None:
+        import sys
+        import unicodedata
+
+        out = []
+        cp = 0
+        while cp <= sys.maxunicode:
+            ch = chr(cp)
+            if unicodedata.category(ch) == "Nd" and unicodedata.digit(ch, None) == 0 and all(
+                unicodedata.category(chr(cp + k)) == "Nd" and unicodedata.digit(chr(cp + k), None) == k for k in range(10) if cp + k <= sys.maxunicode
+            ):
+                out.append(cp)
+                cp += 10
+            else:
+                cp += 1
+        _ND_BLOCKS = out
+    return _ND_BLOCKS
+
+
 def sym_int(x):
-    """int(text): ASCII digit strings become a z3 term; text containing a
-    character int() rejects raises ValueError like the real int(); the few other
-    inputs int() accepts ('_' separators, surrounding blanks, non-ASCII digits)
-    are not modelled (HarnessError).  Decisions depend only on the text, never on
-    a solver model, so replays are deterministic."""
+    """int(text): strings of decimal digits - ASCII or any other Unicode decimal digit, as the real int() - become
+    a z3 term; text containing a character int() rejects raises ValueError like the real int(); '_' separators and
+    surrounding blanks are not modelled (HarnessError).  Decisions depend only on the text, never on a solver
+    model, so replays are deterministic."""
     if isinstance(x, SymText):
         digits = IntervalSet([(48, 57)])
         n = len(x)
@@ -285,21 +310,35 @@ def sym_int(x):
             raise ValueError("invalid literal for int() with base 10: ''")
         from .sremodel import category
 
-        special = (category("CATEGORY_DIGIT") - digits) | iset_of_chars("_") | category("CATEGORY_SPACE")
-        all_digits = True
+        blocks = nd_blocks()
+        other_digits = IntervalSet([(b0, b0 + 9) for b0 in blocks if b0 != 48])
+        special = iset_of_chars("_") | category("CATEGORY_SPACE")
+        ascii_only = True
         for j in range(n):
             if x.test(j, digits):
                 continue
-            all_digits = False
+            if x.test(j, other_digits):
+                ascii_only = False
+                continue
             if x.test(j, special):
-                raise E.HarnessError("int() of text with '_', blanks or non-ASCII digits is not modelled")
+                raise E.HarnessError("int() of text with '_' or blanks is not modelled")
             raise ValueError("invalid literal for int() with base 10")
         eng = E.cur()
         doms = [eng.current_dom((x.base.name, x.start + j)) for j in range(n)]
         if all(d.size() == 1 for d in doms):
             return int("".join(chr(d.min()) for d in doms))
+
+        def value(cp):
+            if ascii_only:
+                return cp - 48
+            v = cp - 48
+            for b0 in blocks:
+                if b0 != 48:
+                    v = z3.If(z3.And(cp >= b0, cp <= b0 + 9), cp - b0, v)
+            return v
+
         e = z3.IntVal(0)
         for j in range(n):
-            e = e * 10 + (x.cp(j) - 48)
+            e = e * 10 + value(x.cp(j))
         return SymInt(e)
     return int(x)
